@@ -2006,6 +2006,9 @@ class VariableDensityPoissonMaskFunc(BaseMaskFunc):
 
         while slope_min < slope_max:
             slope = (slope_max + slope_min) / 2
+            if slope in (slope_min, slope_max):
+                # The interval cannot be bisected any further in floating point arithmetic.
+                break
             radius_x = np.clip((1 + r * slope) * num_rows / max(num_rows, num_cols), 1, None)
 
             radius_y = np.clip((1 + r * slope) * num_cols / max(num_rows, num_cols), 1, None)
